@@ -36,11 +36,6 @@ def contains(t, o):
     return any(contains(k, o) for k in t[1])
 
 
-def equal_costs(r):
-    cs = {c for row in r["costs"].values() for c in row.values()}
-    return len(cs) == 1 and any(args for rs in r["g"].rules.values() for args, _ in rs.values())
-
-
 def check(case, M):
     tier = case.get("tier", "quick")
     r = C.run_case(case, M, tier)
@@ -48,7 +43,8 @@ def check(case, M):
         return {"key": C.key_of(case), "nontrivial": False, "tags": ["trivial:" + r["trivial"]], "failures": []}
     failures = []
     merged_any = any(a[0] == "merge" for a in r["script"])
-    fid = "C02-F4" if equal_costs(r) else None
+    fid = C.raise_finding(r, "C12")
+    filt = "C12-F6" if r["rejected"] else None       # classifier of C12-F6: the filter rejects a (sub)program of the language
 
     def fail(kind, what, detail, finding=None):
         if any(g["what"] == what for g in failures):
@@ -80,7 +76,7 @@ def check(case, M):
         if not merged_any:
             miss = sorted(strict - set(Y))
             if miss:
-                fail("oracle", "a program all of whose sub-programs are accepted is never yielded", f"{len(miss)} e.g. {miss[:3]}")
+                fail("oracle", "a program all of whose sub-programs are accepted is never yielded", f"{len(miss)} e.g. {miss[:3]}", filt)
         else:
             it = iter(r["steps"])
             seen, merged = [], []
@@ -97,7 +93,7 @@ def check(case, M):
             final_owed = {E.show(p) for p in lang if E.show(p) in strict and not any(contains(p, o) for o in merged)}
             miss = sorted(final_owed - set(seen))
             if miss:
-                fail("oracle", "a program that contains no merged program is never yielded", f"{len(miss)} e.g. {miss[:3]}", "C12-F5")
+                fail("oracle", "a program that contains no merged program is never yielded", f"{len(miss)} e.g. {miss[:3]}", filt or "C12-F5")
     tags = C.base_tags(case, r)
     if case.get("filter"):
         tags.append("filter:" + case["filter"]["kind"])
